@@ -13,7 +13,17 @@ type WDB struct {
 	Before func(name string)
 	// OnProofs observes every proof list written to or read from the store (C08 learns stored blinding factors).
 	OnProofs func(ps cashu.Proofs)
-	N        int
+	// Fail, if set, is asked before every method that can return an error; a non-nil answer is returned to the wallet
+	// instead of performing the call (injected storage failure).
+	Fail func(name string) error
+	N    int
+}
+
+func (d *WDB) fail(name string) error {
+	if d.Fail != nil {
+		return d.Fail(name)
+	}
+	return nil
 }
 
 func (d *WDB) pre(name string) {
@@ -40,11 +50,17 @@ func (d *WDB) seenDB(ps []storage.DBProof) {
 	d.seen(l)
 }
 
-func (d *WDB) SaveMnemonicSeed(m string, s []byte) { d.pre("SaveMnemonicSeed"); d.Inner.SaveMnemonicSeed(m, s) }
-func (d *WDB) GetSeed() []byte                     { return d.Inner.GetSeed() }
-func (d *WDB) GetMnemonic() string                 { return d.Inner.GetMnemonic() }
+func (d *WDB) SaveMnemonicSeed(m string, s []byte) {
+	d.pre("SaveMnemonicSeed")
+	d.Inner.SaveMnemonicSeed(m, s)
+}
+func (d *WDB) GetSeed() []byte     { return d.Inner.GetSeed() }
+func (d *WDB) GetMnemonic() string { return d.Inner.GetMnemonic() }
 func (d *WDB) SaveProofs(p cashu.Proofs) error {
 	d.pre("SaveProofs")
+	if err := d.fail("SaveProofs"); err != nil {
+		return err
+	}
 	d.seen(p)
 	return d.Inner.SaveProofs(p)
 }
@@ -60,14 +76,26 @@ func (d *WDB) GetProofsByKeysetId(id string) cashu.Proofs {
 	d.seen(r)
 	return r
 }
-func (d *WDB) DeleteProof(s string) error { d.pre("DeleteProof"); return d.Inner.DeleteProof(s) }
+func (d *WDB) DeleteProof(s string) error {
+	d.pre("DeleteProof")
+	if err := d.fail("DeleteProof"); err != nil {
+		return err
+	}
+	return d.Inner.DeleteProof(s)
+}
 func (d *WDB) AddPendingProofs(p cashu.Proofs) error {
 	d.pre("AddPendingProofs")
+	if err := d.fail("AddPendingProofs"); err != nil {
+		return err
+	}
 	d.seen(p)
 	return d.Inner.AddPendingProofs(p)
 }
 func (d *WDB) AddPendingProofsByQuoteId(p cashu.Proofs, q string) error {
 	d.pre("AddPendingProofsByQuoteId")
+	if err := d.fail("AddPendingProofsByQuoteId"); err != nil {
+		return err
+	}
 	d.seen(p)
 	return d.Inner.AddPendingProofsByQuoteId(p, q)
 }
@@ -85,20 +113,35 @@ func (d *WDB) GetPendingProofsByQuoteId(q string) []storage.DBProof {
 }
 func (d *WDB) DeletePendingProofs(ys []string) error {
 	d.pre("DeletePendingProofs")
+	if err := d.fail("DeletePendingProofs"); err != nil {
+		return err
+	}
 	return d.Inner.DeletePendingProofs(ys)
 }
 func (d *WDB) DeletePendingProofsByQuoteId(q string) error {
 	d.pre("DeletePendingProofsByQuoteId")
+	if err := d.fail("DeletePendingProofsByQuoteId"); err != nil {
+		return err
+	}
 	return d.Inner.DeletePendingProofsByQuoteId(q)
 }
-func (d *WDB) SaveKeyset(k *crypto.WalletKeyset) error { d.pre("SaveKeyset"); return d.Inner.SaveKeyset(k) }
-func (d *WDB) GetKeysets() crypto.KeysetsMap           { d.pre("GetKeysets"); return d.Inner.GetKeysets() }
+func (d *WDB) SaveKeyset(k *crypto.WalletKeyset) error {
+	d.pre("SaveKeyset")
+	if err := d.fail("SaveKeyset"); err != nil {
+		return err
+	}
+	return d.Inner.SaveKeyset(k)
+}
+func (d *WDB) GetKeysets() crypto.KeysetsMap { d.pre("GetKeysets"); return d.Inner.GetKeysets() }
 func (d *WDB) GetKeyset(id string) *crypto.WalletKeyset {
 	d.pre("GetKeyset")
 	return d.Inner.GetKeyset(id)
 }
 func (d *WDB) IncrementKeysetCounter(id string, n uint32) error {
 	d.pre("IncrementKeysetCounter")
+	if err := d.fail("IncrementKeysetCounter"); err != nil {
+		return err
+	}
 	return d.Inner.IncrementKeysetCounter(id, n)
 }
 func (d *WDB) GetKeysetCounter(id string) uint32 {
@@ -107,16 +150,37 @@ func (d *WDB) GetKeysetCounter(id string) uint32 {
 }
 func (d *WDB) UpdateKeysetMintURL(o, n string) error {
 	d.pre("UpdateKeysetMintURL")
+	if err := d.fail("UpdateKeysetMintURL"); err != nil {
+		return err
+	}
 	return d.Inner.UpdateKeysetMintURL(o, n)
 }
-func (d *WDB) SaveMintQuote(q storage.MintQuote) error { d.pre("SaveMintQuote"); return d.Inner.SaveMintQuote(q) }
-func (d *WDB) GetMintQuotes() []storage.MintQuote      { d.pre("GetMintQuotes"); return d.Inner.GetMintQuotes() }
+func (d *WDB) SaveMintQuote(q storage.MintQuote) error {
+	d.pre("SaveMintQuote")
+	if err := d.fail("SaveMintQuote"); err != nil {
+		return err
+	}
+	return d.Inner.SaveMintQuote(q)
+}
+func (d *WDB) GetMintQuotes() []storage.MintQuote {
+	d.pre("GetMintQuotes")
+	return d.Inner.GetMintQuotes()
+}
 func (d *WDB) GetMintQuoteById(id string) *storage.MintQuote {
 	d.pre("GetMintQuoteById")
 	return d.Inner.GetMintQuoteById(id)
 }
-func (d *WDB) SaveMeltQuote(q storage.MeltQuote) error { d.pre("SaveMeltQuote"); return d.Inner.SaveMeltQuote(q) }
-func (d *WDB) GetMeltQuotes() []storage.MeltQuote      { d.pre("GetMeltQuotes"); return d.Inner.GetMeltQuotes() }
+func (d *WDB) SaveMeltQuote(q storage.MeltQuote) error {
+	d.pre("SaveMeltQuote")
+	if err := d.fail("SaveMeltQuote"); err != nil {
+		return err
+	}
+	return d.Inner.SaveMeltQuote(q)
+}
+func (d *WDB) GetMeltQuotes() []storage.MeltQuote {
+	d.pre("GetMeltQuotes")
+	return d.Inner.GetMeltQuotes()
+}
 func (d *WDB) GetMeltQuoteById(id string) *storage.MeltQuote {
 	d.pre("GetMeltQuoteById")
 	return d.Inner.GetMeltQuoteById(id)
